@@ -64,6 +64,144 @@ PROPS = {
     },
 }
 
+def lmer(fams, tier, ks=None):
+    ns = [1, 2, 3, 4, 5, 6] if tier == "thorough" else [1, 2, 3]
+    out = []
+    for n in ns:
+        for f in fams:
+            out.append("vmer::verif::lmer%d::%s" % (n, f))
+        for k in (ks or []):
+            if k <= 32 * n - 4:
+                out.append("vmer::verif::lmer%d::l_get_kmer_k%d" % (n, k))
+    return out
+
+
+LMER_KS_QUICK = [32, 20, 16, 5, 4]
+LMER_KS_ALL = [64, 48, 32, 31, 20, 16, 15, 8, 5, 4, 3]
+SEAM_NOTE = ("Seam: Verus proves generic container code against the trait-level Mer/Kmer contract (verus/units/prelude.rs); "
+             "Kani discharges those clauses on the real impls of each shipped k-mer type (families k_get, k_set_slice_mut, "
+             "k_rc, k_extend_right, k_empty, k_from_bytes, k_len). A downstream impl of Kmer is not covered.")
+VERUS_TRUST = [
+    "Verus 0.2026.09.13 / Z3 are sound; the extractor (verus/extract.py) copies function bodies verbatim and applies only rewrite rules R1-R13 (listed in its header, counted per function in coverage.extraction)",
+    "vstd specifications of Vec, Option, Range, String::push/new; assumed: std::cmp::min, String::with_capacity (prelude.rs)",
+    "strings are shorter than 2^62 bases (max_len); usize is 64 bit",
+]
+
+PROPS["C12"] = {
+    "title": "Reverse complement is coherent across all sequence types",
+    "kani": lambda tier: kfam(["k_rc", "k_min_rc", "k_canon"], tier) + exts(["x_rc", "x_complement", "x_reverse"])
+        + lmer(["l_rc", "l_rc_empty"], tier) + tables(["t_complement"]),
+    "verus": [("dnaslice", r"^(DnaStringSlice::(rc|get|get_kmer|slice)|complement|DnaString::(get|get_kmer|slice|prefix|suffix))$")],
+    "bounded": lambda tier: [],
+    "design_ref": "DESIGN.md §6 C12",
+    "undecided": ["DnaString::rc (body uses Peekable/rev/map adapters neither verifier reaches unboundedly): not yet covered by a bounded stand-in"],
+    "trust": VERUS_TRUST + [SEAM_NOTE],
+    "level_text": "k-mer rc (positional law, involution, inv), canonical form / palindrome test and Exts rc/complement/reverse are proved for all values by Kani on the real code (complete); Lmer::rc for every capacity N per fixed N (complete); slice rc/get/get_kmer under rc are proved unbounded by Verus on the extracted bodies, incl. that the i-th k-mer of the reverse complement is the rc of the mirrored window.",
+    "level_note": "Trusted: Kani/CBMC, Verus/Z3, extractor rules, the V<->K seam (trait contract assumed in Verus, discharged per shipped type by Kani). DnaString::rc itself is listed under undecided_clauses.",
+}
+
+PROPS["C13"] = {
+    "title": "K-mer extraction agrees across all containers",
+    "kani": lambda tier: kfam(["k_from_bytes", "k_from_ascii", "k_set_slice_mut", "k_extend_right", "k_empty", "k_len"], tier)
+        + lmer(["l_from_slice"], tier, LMER_KS_ALL if tier == "thorough" else LMER_KS_QUICK),
+    "verus": [("dnastring", r"^DnaString::(get_kmer|addr|get|get_by_addr)$"), ("dnaslice", r"^DnaStringSlice::(get_kmer|get|rc)$"), ("kmeriter", None)],
+    "bounded": lambda tier: [],
+    "design_ref": "DESIGN.md §6 C13",
+    "undecided": ["Kmer::kmers_from_bytes / kmers_from_ascii (iterator adapters take/skip/enumerate): not under contract yet",
+                  "iterator totals (exactly max(0,n-K+1) items) follow from the per-call next() contracts by induction over calls; the induction is a meta-argument, each step is a discharged obligation"],
+    "trust": VERUS_TRUST + [SEAM_NOTE],
+    "level_text": "get_kmer of the growable string, of forward and reverse-complemented slices at every offset, and of Lmer for each capacity is proved equal to the k-mer built from bases i..i+K (Verus unbounded with loop invariants across 32-base block boundaries; Kani complete per capacity); KmerIter/KmerExtsIter::next and the Vmer first/last/term accessors are proved against the window spec for any container and k-mer type satisfying the trait contract, incl. that boundary extensions are used only at the two ends.",
+    "level_note": "Trusted: Verus/Z3, Kani/CBMC, extractor rules, the V<->K seam. DnaBytes/DnaSlice::get_kmer reduce to Kmer::from_bytes (Kani k_from_bytes, complete).",
+}
+
+PROPS["C14"] = {
+    "title": "Growable DNA string is a faithful sequence container",
+    "kani": lambda tier: ["dna_string::verif::d_word_order"],
+    "verus": [("dnastring", None), ("packedset", r"^PackedDnaStringSet::")],
+    "bounded": lambda tier: ([("dna_string::verif::d_dna_eq_ord_hash_b2", "strings of <= 64 bases (2 words)")] if tier == "thorough" else []),
+    "design_ref": "DESIGN.md §6 C14",
+    "undecided": ["extend / from_bytes / from_dna_string / rc / reverse / to_bytes / to_ascii_vec / Display (Peekable and iterator adapters): no unbounded contract; bounded stand-ins pending",
+                  "PackedDnaStringSet::add (generic IntoIterator + Borrow): not under contract",
+                  "derived ==/cmp/Hash: word-level order fact complete (d_word_order); whole-string law only as a bounded stand-in (thorough)"],
+    "trust": VERUS_TRUST,
+    "level_text": "Data-structure contract: every DnaString operation under contract (new, with_capacity, blank, push, set_mut, get, len, is_empty, clear, push_bytes, iter/next, addr/get_by_addr/set_by_addr) is proved to preserve the representation invariant wf (exact word count, zero padding) and to transform the abstract base vector exactly as the plain-vector operation does, for all lengths (Verus, unbounded). History quantifier = induction over these per-operation contracts.",
+    "level_note": "Trusted: Verus/Z3, extractor rules, vstd Vec specs. See undecided_clauses for the operations that are not under an unbounded contract.",
+}
+
+PROPS["C15"] = {
+    "title": "String slices are exact, composable views",
+    "kani": lambda tier: ["dna_string::verif::d_count_diff"] + kfam(["k_to_u64", "k_get", "k_rc"], "quick", 32, 32),
+    "verus": [("dnaslice", None)],
+    "bounded": lambda tier: [("dna_string::verif::d_slice_hamming_1024", "length == 1024, strings differ inside word 0 only"),
+                             ("dna_string::verif::d_slice_render_3", "3 bases, Display and Debug, both strands")],
+    "design_ref": "DESIGN.md §6 C15",
+    "undecided": [],
+    "trust": VERUS_TRUST + [SEAM_NOTE, "R4: core::fmt renders a char / String as itself (fmt::sink in prelude.rs)"],
+    "level_text": "Every slice operation (prefix/suffix/slice/slice-of-slice/rc/get/get_kmer/bytes/ascii/to_dna_string/Display/Debug/to_owned/eq/hamming_dist) is proved equal to the same operation on the plain base vector (reverse-complemented when flagged) for ALL strings, offsets and lengths: Verus on the real function bodies extracted each run, with loop invariants; composition follows by induction from slice/rc being exact on views.",
+    "level_note": "Trusted: Verus/Z3; extractor rules R1-R13; vstd specs of Vec/String; k-mer trait contract discharged by Kani per shipped type (seam); count_diff_2_bit_packed clause discharged by Kani d_count_diff. Bounded stand-ins (Kani) are counterexample finders only and are not counted as proved.",
+}
+
+PROPS["C16"] = {
+    "title": "ASCII ingestion is total and path-independent",
+    "kani": lambda tier: tables(TABLES_ALL) + ["bitops_avx2::verif::a_block"],
+    "verus": [],
+    "bounded": lambda tier: [],
+    "design_ref": "DESIGN.md §6 C16",
+    "undecided": ["from_acgt_bytes chunk loop / tail composition for every length, to_ascii_vec round trip, from_dna_only_string, from_acgt_bytes_hashn: bounded stand-ins pending"],
+    "trust": ["the two AVX2 intrinsic models (_mm256_shuffle_epi8, _mm256_testc_si256) follow the Intel SDM; validated natively against the CPU by `debruijn-replay --validate-avx-models`, not proved"],
+    "level_text": "The six byte tables are proved for all 256 byte values and the vector path (convert_bases + pack_32_bases, real code incl. unsafe loadu) is proved equal to the scalar path on ALL 256^32 blocks, lane by lane, with the valid flag exact (Kani, complete).",
+    "level_note": "Trusted: Kani/CBMC; two intrinsic models (Kani cannot translate pshufb / vptest). The chunking loop of from_acgt_bytes is not under an unbounded contract (undecided_clauses).",
+}
+
+PROPS["C17"] = {
+    "title": "Fixed-size DNA strings (Lmer) behave as strings",
+    "kani": lambda tier: lmer(["l_new", "l_get", "l_set_mut", "l_set_slice_mut", "l_rc", "l_rc_empty", "l_eq_hash", "l_wf_canonical", "l_from_slice"],
+                              tier, LMER_KS_ALL if tier == "thorough" else LMER_KS_QUICK) + ["vmer::verif::l_block"],
+    "verus": [],
+    "bounded": lambda tier: [],
+    "design_ref": "DESIGN.md §6 C17",
+    "undecided": [],
+    "level_text": "For each capacity N (quick 1..3, thorough 1..6) and a fully symbolic well-formed storage: new/len/get/set_mut/set_slice_mut (frame over every raw lane incl. the length byte, runs crossing word boundaries and touching the last word), rc, get_kmer, ==/Hash are proved against the plain-string spec (Kani, complete per N; loops bounded by N with unwinding assertions).",
+    "level_note": "Trusted: Kani/CBMC. Preconditions: len <= max_len, bases < 4, 1 <= n <= 32. l_from_slice is bounded (slice length <= 12).",
+}
+
+PROPS["C18"] = {
+    "title": "Node k-mer iteration obeys the iterator contract",
+    "kani": lambda tier: [],
+    "uses_kani": True,
+    "verus": [("nodeiter", r"^(NodeKmer::into_iter|NodeKmerIter::(next|nth|size_hint))$")],
+    "bounded": lambda tier: [("graph::verif::g_node_iter_seq", "node of 9 bases inside a 21-base string, Kmer4, 3 calls next()/nth(n<=9)")],
+    "design_ref": "DESIGN.md §6 C18",
+    "undecided": ["'iterating all nodes visits every k-mer exactly once' needs NodeIntoIter/NodeIter (MPHF-backed graph): not under contract; distinct slots are boomphf's contract"],
+    "trust": VERUS_TRUST + [SEAM_NOTE],
+    "level_text": "NodeKmer::into_iter, NodeKmerIter::next, nth and size_hint are proved against Iterator's documented contract for every node length and every n: usize (below and above the short-skip threshold, inside and beyond the remaining count): struct invariant kmer_id <= num_kmers, yielded k-mer == window(kmer_id), None forever after the end, no read outside the node, no overflow (Verus, unbounded).",
+    "level_note": "Trusted: Verus/Z3, extractor rules (R8: Iterator impl emitted as inherent methods, associated types substituted), the V<->K seam, DnaStringSlice contracts proved in the same unit.",
+}
+
+PROPS["C07"] = {
+    "title": "Minimizer partition covers every k-mer exactly once with a true minimizer",
+    "kani": lambda tier: kfam(["k_extend_right", "k_len"], tier, 2, 8),
+    "verus": [("scan", None)],
+    "bounded": lambda tier: [("msp::verif::m_scan_p2", "P = Kmer2, k in [2,4], k <= m <= k+4, score table values in 0..2")] if tier == "thorough" else [],
+    "design_ref": "DESIGN.md §6 C07",
+    "undecided": [],
+    "trust": VERUS_TRUST + [SEAM_NOTE,
+        "std::cmp::min(a, b) = match a.cmp(&b) { Greater => b, _ => a } (std source, modelled by `min` in verus/units/scan.rs.tmpl over the REAL extracted MinPos::cmp)",
+        "core's derived PartialEq for Ordering is structural equality (axiom_ordering_eq)",
+        "the score closure is total and a function of the p-mer's bases (precondition Scanner::wf)"],
+    "level_text": "Scanner::{new, mp, incr, scan} and MinPos::cmp are verified UNBOUNDED by Verus from their real text (incl. the find_min closure with its inner loop): for every sequence container, p-mer type, k >= p, length m >= k and score function, the returned intervals start at 0 in strictly increasing order, consecutive ones overlap by exactly k-1 bases, the last ends at m, each length is in [k, 2k-p], the reported minimizer is the p-mer at the reported position, lies inside every k-mer of its interval, has the minimum score among all the interval's p-mers, and an interval ends only when the next k-mer loses the minimizer or brings a strictly better p-mer.",
+    "level_note": "Trusted: Verus/Z3, extractor rules (R14 closure parameter types, R9, R11), the assumed std::cmp::min semantics and Ordering equality axiom, the V<->K seam for the p-mer type. Preconditions derived from the code's own asserts and casts: m < 2^32, 2k-p <= 65535. The Kani harness m_scan_p2 is a bounded cross-check only (thorough tier).",
+}
+
+PAIRED_KANI = {
+    "verus:dnaslice::DnaStringSlice::hamming_dist": "dna_string::verif::d_slice_hamming_1024",
+    "verus:dnaslice::DnaStringSlice::fmt_debug": "dna_string::verif::d_slice_render_3",
+    "verus:dnaslice::DnaStringSlice::fmt_display": "dna_string::verif::d_slice_render_3",
+    "verus:nodeiter::NodeKmerIter::nth": "graph::verif::g_node_iter_seq",
+    "verus:nodeiter::NodeKmerIter::next": "graph::verif::g_node_iter_seq",
+    "verus:scan::Scanner::scan": "msp::verif::m_scan_p2",
+}
+
 COMMON_TRUST = [
     "rustc lowers the crate to the MIR that Kani verifies; CBMC 6.11 and its SAT back end are sound",
     "Kani models machine arithmetic bit-precisely (overflow, shift and bounds checks stay on): integers are NOT idealised",
@@ -71,6 +209,7 @@ COMMON_TRUST = [
 
 
 HOOK_COMMITS = ["b99dd0a", "cace3e3"]
+FIX_COMMITS = ["fbab396", "2f3f16f", "a14fcdf"]
 
 NOT_APPLICABLE = {
     "C01": "whole-construction inductive invariant over generic code threading three third-party containers; no single-call contract expresses it and the bounded route is intractable for Kani (see DESIGN.md §6 C01)",
@@ -81,14 +220,6 @@ NOT_APPLICABLE = {
     "C03": "not built yet in this session (planned: Verus on find_link / find_edges / pruning, DESIGN.md §6 C03)",
     "C05": "not built yet in this session (planned, DESIGN.md §6 C05)",
     "C06": "not built yet in this session (planned, DESIGN.md §6 C06)",
-    "C07": "not built yet in this session (planned, DESIGN.md §6 C07)",
     "C08": "not built yet in this session (planned, DESIGN.md §6 C08)",
     "C09": "not built yet in this session (planned, DESIGN.md §6 C09)",
-    "C12": "not built yet in this session (planned, DESIGN.md §6 C12)",
-    "C13": "not built yet in this session (planned, DESIGN.md §6 C13)",
-    "C14": "not built yet in this session (planned, DESIGN.md §6 C14)",
-    "C15": "not built yet in this session (planned, DESIGN.md §6 C15)",
-    "C16": "not built yet in this session (planned, DESIGN.md §6 C16)",
-    "C17": "not built yet in this session (planned, DESIGN.md §6 C17)",
-    "C18": "not built yet in this session (planned, DESIGN.md §6 C18)",
 }
